@@ -137,6 +137,8 @@ JudgeAnd(extra) ==
        /\ bad' = f
   ELSE /\ viol' = viol \o extra /\ bad' = bad
 
+JudgeAnd2(a, b) == JudgeAnd(a \o b)
+
 Step(changed, kind) ==
   /\ l' = l + 1
   /\ dirty' = changed
@@ -421,7 +423,12 @@ TFs ==
   \* Judged on the CONTENTS of the file after the write (SimFs parses the log items incrementally,
   \* field logbad), not on the individual write call: a writer may hand a whole multi-block record,
   \* trailers included, to the file in one call
-  /\ JudgeAnd(IF Ev.op = "write" /\ Ev.kind \in {"wal", "manifest"}
+  \* the manifest that CURRENT names is what the next open (crash recovery included) starts from
+  /\ JudgeAnd2(IF Ev.op = "remove" /\ Ev.kind = "manifest" /\ Ev.named = 1
+               THEN ObsViol(IF FaultMode THEN <<"C11", "C08">> ELSE <<"C11", "C02">>,
+                            "ManifestNamedByCurrentDeleted", [keys |-> <<Ev.n>>, at |-> 0])
+               ELSE <<>>,
+               IF Ev.op = "write" /\ Ev.kind \in {"wal", "manifest"}
               THEN IF Ev.logbad = 1
                    THEN ObsViol(IF FaultMode THEN <<"C08", "C12">> ELSE <<"C12">>,
                                 "LogWriterMisplaced", [keys |-> <<Ev.n, Ev.off, Ev.len>>, at |-> 0])
